@@ -17,6 +17,7 @@ import (
 	"net"
 	"net/http"
 	"net/url"
+	"strings"
 	"sync"
 	"sync/atomic"
 	"time"
@@ -1180,11 +1181,39 @@ func (d *DoUDP) ForwardDNS(ctx context.Context, data []byte) (*dnsmessage.Msg, e
 			badConn = true
 			return nil, err
 		}
+		if !dnsReplyMatchesRequestQuestion(&msg, data) {
+			// Same ID, another question: a late reply to an earlier query that
+			// used this ID on the pooled socket (the ID is the client's own).
+			// It is not the answer to this request; keep waiting like for any
+			// other stale datagram.
+			staleResponses++
+			if staleResponses > maxStaleResponses {
+				udpPool.discard(conn)
+				badConn = true
+				return nil, fmt.Errorf("too many stale UDP DNS responses")
+			}
+			continue
+		}
 		if msg.Truncated {
 			return &msg, ErrDNSTruncated
 		}
 		return &msg, nil
 	}
+}
+
+// dnsReplyMatchesRequestQuestion reports whether the question a reply echoes
+// is the question of the packed request (names compare case-insensitively). A
+// reply without a question section has nothing to compare.
+func dnsReplyMatchesRequestQuestion(reply *dnsmessage.Msg, request []byte) bool {
+	if len(reply.Question) == 0 {
+		return true
+	}
+	var req dnsmessage.Msg
+	if err := req.Unpack(request); err != nil || len(req.Question) == 0 {
+		return true
+	}
+	q, r := req.Question[0], reply.Question[0]
+	return q.Qtype == r.Qtype && q.Qclass == r.Qclass && strings.EqualFold(q.Name, r.Name)
 }
 
 func (d *DoUDP) Close() error {
